@@ -781,7 +781,7 @@ func (e *c11Env) randCfg(n int) baskettypes.Basket {
 		cap = decS(e.pick(c11Caps))
 	}
 	mins := []int64{0, 1, 1, 1, 1, 1, 1, 1, 10, 1000}
-	periods := []uint64{5, 20, 60, 86400, 0}
+	periods := []uint64{5, 20, 60, 86400, 0, 2_000_000_000, 9_000_000_000, 31_557_600} // also longer than the chain's unix time: the window starts before 1970
 	return baskettypes.Basket{
 		Suffix: fmt.Sprintf("s%d", n), Description: "c11", Amount: sdk.ZeroInt(),
 		SwapFee: decS(e.pick(c11Fees)), SlipppageFeeMin: decS(e.pick(c11Slips)), TokensCap: cap,
@@ -1157,6 +1157,35 @@ func c11WitnessPeriodExtension(r *Rec) {
 	e.doMint(1, id, sdk.NewCoins(sdk.NewInt64Coin("ukex", 900)))
 }
 
+// the limits period is turned into a time.Duration (int64 nanoseconds): `time.Second * time.Duration(limitsPeriod)` wraps
+// for periods of 2^63 / 10^9 s (292 years) and more, the window then starts at an arbitrary instant - for 2^40 s in the
+// future - and the per-period maxima are not enforced at all. Run on the implementation only (the model keeps exact
+// integers; the generated configurations stay below the wrap).
+func c11WitnessPeriodOverflow(r *Rec) {
+	w := NewWorld(WorldOpts{NAcc: 3, NVal: 1, SudoAccs: []int{0}, Balance: c11Balance()})
+	ctx := w.KeeperCtx()
+	k := w.app.BasketKeeper
+	ms := basketkeeper.NewMsgServerImpl(k, w.app.CustomGovKeeper)
+	lim := sdk.NewInt(1000)
+	if err := k.CreateBasket(ctx, baskettypes.Basket{Suffix: "ovf", Amount: sdk.ZeroInt(), SwapFee: sdk.ZeroDec(), SlipppageFeeMin: sdk.ZeroDec(), TokensCap: sdk.OneDec(),
+		LimitsPeriod: 1 << 40, MintsMin: sdk.OneInt(), MintsMax: lim, BurnsMin: sdk.OneInt(), BurnsMax: lim, SwapsMin: sdk.OneInt(), SwapsMax: lim,
+		Tokens: []baskettypes.BasketToken{{Denom: "ukex", Weight: sdk.OneDec(), Amount: sdk.ZeroInt(), Deposits: true, Withdraws: true, Swaps: true}}}); err != nil {
+		return
+	}
+	id := k.GetLastBasketId(ctx)
+	accepted := 0
+	for i := 0; i < 2; i++ {
+		c := ctx.WithBlockTime(ctx.BlockTime().Add(time.Duration(i+1) * 6 * time.Second))
+		if _, err := ms.BasketTokenMint(sdk.WrapSDKContext(c), &baskettypes.MsgBasketTokenMint{Sender: w.addrs[1].String(), BasketId: id, Deposit: sdk.NewCoins(sdk.NewInt64Coin("ukex", 900))}); err == nil {
+			accepted++
+		}
+	}
+	r.Case("witness/period-duration-overflow", true)
+	if accepted == 2 {
+		r.Known("C11/limits/period-duration-overflow", "basket with limits_period 2^40 s and mints_max 1000: two mints of 900 within 12 s are both accepted (time.Second * time.Duration(period) wraps, the window starts in the future)")
+	}
+}
+
 // ---------------------------------------------------------------- main
 
 func runC11(r *Rec) {
@@ -1166,6 +1195,7 @@ func runC11(r *Rec) {
 	c11WitnessNegativeFee(r)
 	c11WitnessEditAmount(r)
 	c11WitnessPeriodExtension(r)
+	c11WitnessPeriodOverflow(r)
 	episodes, steps := 120, 80
 	if r.Tier == "thorough" {
 		episodes, steps = 1500, 160
